@@ -5,4 +5,10 @@ SIGS = {
     'api_c12_nndist': (['nat', 'str', STRS], O('nat')),
     'api_c12_isdist2': (['str', STRS], 'bool'),
     'api_c12_isdist3': (['str', STRS], 'bool'),
+    # C12 (source tie): the functions regenerated from the source text of distance.py (coq/gen/Gen_c12.v)
+    'api_c12g_lev_nbrs': (['str', 'str'], STRS),
+    'api_c12g_ham_nbrs': (['str', L('nat'), 'str'], STRS),
+    'api_c12g_ham_nbrs_default': (['str', 'str'], STRS),
+    'api_c12g_isdist2': (['str', STRS], 'bool'),
+    'api_c12g_isdist3': (['str', STRS], 'bool'),
 }
